@@ -12,7 +12,7 @@ def resOfCode (a : Int) : Option Res :=
 
 /-- Translate hook lines to model events.  Dropped as stutter (no state change in the model):
     `sl.lock`, `ag.yield` (spinning on the internal spinlock), the perturbation points
-    `mtx.wait`, `mtx.notify`, `mtx.twait`, the payload line `mtx.reason` (checked by a monitor),
+    `mtx.wait`, `mtx.notify`, `mtx.twait`,
     and the harness' own points `cs.pre`, `cs.yield`.  `cv.pop` must be followed immediately by
     the agent call of the same thread and is merged with it. -/
 partial def toEvents : List Line → List (Option Ev × String) → List (Option Ev × String)
@@ -25,7 +25,7 @@ partial def toEvents : List Line → List (Option Ev × String) → List (Option
     -- e.g. the ones taken while an exception object is built, are not part of the model
     if l.site.startsWith "sl." && l.obj != 1 then toEvents rest acc else
     match l.site with
-    | "sl.lock" | "ag.yield" | "mtx.wait" | "mtx.notify" | "mtx.twait" | "mtx.reason"
+    | "sl.lock" | "ag.yield" | "mtx.wait" | "mtx.notify" | "mtx.twait"
     | "cs.pre" | "cs.yield" => toEvents rest acc
     | "inv.lock" => push (.inv t .lock)
     | "inv.trylock" => push (.inv t .tryl)
